@@ -4,6 +4,7 @@ package nextroute
 
 import (
 	"fmt"
+	"sort"
 
 	"github.com/nextmv-io/nextroute/common"
 	"gonum.org/v1/gonum/spatial/kdtree"
@@ -185,7 +186,12 @@ func (p plane) Less(i, j int) bool {
 	}
 }
 func (p plane) Pivot() int {
-	return kdtree.Partition(p, kdtree.MedianOfMedians(p))
+	// A deterministic median. kdtree.MedianOfMedians selects with a random
+	// source that is global to the process: the shape of the tree, and with it
+	// the order in which equally distant stops are returned, would depend on
+	// how many trees were built before in the same process.
+	sort.Stable(p)
+	return p.Len() / 2
 }
 
 func (p plane) Slice(start, end int) kdtree.SortSlicer {
